@@ -141,6 +141,17 @@ def early_returns(rep: Report, fi: FuncInfo, guards) -> int:
     return 1
 
 
+def partial_any(e: ast.AST):
+    """an any()/all() reduction over a proper subset of the axes (dim given): returns the call, else None"""
+    for c in ast.walk(e):
+        if isinstance(c, ast.Call) and (call_name(c) or "").split(".")[-1] in ("any", "all", "amax", "max"):
+            is_fn = (call_name(c) or "").startswith("torch.")
+            extra = c.args[1:] if is_fn else c.args
+            if any(k.arg in ("dim", "axis") for k in c.keywords) or extra:
+                return c
+    return None
+
+
 def rule_bipolar(rep: Report, fi: FuncInfo) -> int:
     """(x+1)/2 before, 2*y-1 after, both under the flag (x == -1).any()."""
     n = 0
@@ -148,6 +159,10 @@ def rule_bipolar(rep: Report, fi: FuncInfo) -> int:
     if len(flag) != 1:
         rep.undecided("BIPOLAR", fi, "format flag", f"{len(flag)} definitions of neg_one_format")
         return 1
+    partial = partial_any(flag[0].value)
+    if partial is not None:
+        rep.violation("BIPOLAR", fi, f"format flag: {unparse(flag[0])}", f"`{unparse(partial)[:60]}` decides the input alphabet per row (a reduction over one axis only): the alphabet is a property of the whole input, so in a bipolar batch a row consisting of +1 only is handled as a {{0,1}} word and its symbols come out as 0 / 1 - outside the bipolar alphabet", node=flag[0])
+        return n + 1
     s, d, _ = classify(flag[0].value, ["(x == -1).any()", "torch.any(x == -1)", "(x < 0).any()"])
     rep.add("BIPOLAR", fi, f"format flag: {unparse(flag[0])}", s, d or "bipolar input is recognised by the presence of -1", node=flag[0])
     n += 1
@@ -349,6 +364,10 @@ def rule_bipolar_z(rep: Report, fi: FuncInfo) -> int:
     n = 0
     flag = [s for s in stmts_of(fi.body) if isinstance(s, ast.Assign) and unparse(s.targets[0]) == "neg_one_format"]
     for f in flag:
+        if partial_any(f.value) is not None:
+            rep.violation("BIPOLAR", fi, f"format flag: {unparse(f)}", f"`{unparse(partial_any(f.value))[:60]}` decides the input alphabet per row: in a bipolar batch a row of +1 only is handled as a {{0,1}} word", node=f)
+            n += 1
+            continue
         s, d, _ = classify(f.value, ["(x == -1).any()", "torch.any(x == -1)", "(x < 0).any()"])
         rep.add("BIPOLAR", fi, f"format flag: {unparse(f)}", s, d or "bipolar input recognised by the presence of -1", node=f)
         n += 1
